@@ -480,6 +480,7 @@ def main():
                 print("KNOWN-FINDING: property=%s %s" % (prop, f["what"]))
         os.makedirs(os.path.join(EVID, "replays"), exist_ok=True)
         confirmed = 0
+        unconfirmed = 0
         classes = {}
         for v in sorted(reported, key=lambda x: len(x.get("steps") or [])):
             cls = (v.get("kind"), v.get("class"), re.sub(r"\d+", "N", v.get("why", "")))
@@ -491,7 +492,7 @@ def main():
                 print("UNCONFIRMED (not reproduced in a fresh worker): %s" % v.get("why"))
                 os.makedirs(os.path.join(EVID, "unconfirmed"), exist_ok=True)
                 json.dump(v, open(os.path.join(EVID, "unconfirmed", "%s-%s.json" % (prop, v.get("hash", "x"))), "w"), indent=1)
-                rc = max(rc, 2)
+                unconfirmed += 1
                 continue
             confirmed += 1
             path = os.path.join(EVID, "replays", "%s-%s.json" % (prop, v.get("hash", "x")))
@@ -501,6 +502,11 @@ def main():
             rc = 1
         if confirmed > 0:
             rc = 1          # a violation reproduced on the real code is the verdict, whatever else stayed unconfirmed
+        elif unconfirmed > 3 + (ev["behaviours"] + ev["go_evaluations"]) // 500:
+            # observations that do not reproduce are never a verdict; a few of them (a deadline missed on a loaded machine)
+            # are recorded in the evidence and under evidence/unconfirmed, many of them mean the run decided nothing
+            print("too many observations did not reproduce (%d): nothing decided" % unconfirmed)
+            rc = max(rc, 2)
         total_beh = ev["behaviours"] + ev["go_evaluations"]
         if ev["behaviours"] and ev["desynced"] > ev["behaviours"] // 2 and rc == 0:
             print("most behaviours desynchronised - nothing decided: %s" % json.dumps([j.get("desync_why") for j in ev["jobs"]]))
@@ -514,7 +520,7 @@ def main():
                  "distinct by the hash of its action sequence; behaviours with fewer than two actions are not counted",
             samples=ev["samples"][:3] or [{"note": "model check only in this run"}],
             behaviours_replayed=ev["behaviours"], replay_completed=ev["completed"], desynced=ev["desynced"],
-            oracle_evaluations=ev["checked"], known_finding_hits=hits, violations_beyond_kept=unexplained_beyond_kept,
+            oracle_evaluations=ev["checked"], known_finding_hits=hits, unconfirmed_observations=unconfirmed, violations_beyond_kept=unexplained_beyond_kept,
             per_job=ev["jobs"],
             checker_cmd="tlc (TLC2 v1.8.0) on spec/*.tla with the cfg files named in per_job; harness/cmd/* built with -tags verif against /repo",
             trusted_base=["TLC", "the Go toolchain", "protobuf, encoding/json", "harness/fakemongo, harness/fakemqtt (where used)"],
